@@ -149,11 +149,17 @@ def sepWindowsOK : List Key → List ImpEntry → Bool
   | sk :: sks, l :: r :: rest => decide (l.maxKey < sk) && decide (sk ≤ r.minKey) && sepWindowsOK sks (r :: rest)
   | _ :: _, _ => false
 
+/-- `imp.lastLeafKey != nil && bytes.Compare(node.Key, imp.lastLeafKey) <= 0` -/
+def keyNotAfter (last : Option Key) (key : Key) : Bool :=
+  match last with
+  | some l => decide (key ≤ l)
+  | none => false
+
 /-- `Importer.Add`; `none` = the node is rejected with an error. -/
 def impAdd (B : Nat) (imp : Importer) : ExportNode → Option Importer
   | .entry key value =>
     if key.length = 0 then none
-    else if (match imp.lastLeafKey with | some l => decide (key ≤ l) | none => false) then none
+    else if keyNotAfter imp.lastLeafKey key then none
     else some { imp with kvBuffer := imp.kvBuffer ++ [(key, value)], lastLeafKey := some key }
   | .leafEnd nk =>
     if nk < 1 ∨ nk > B then none
